@@ -57,6 +57,11 @@ def classify(prog: Program, m, fn_of) -> tuple[str, str | None]:
         return "violation", f"stores `.value` of a {m.tcls}, not of a binding"
     if m.tcls == "ScopeState" and fld in SCOPE_STATE_FIELDS and op.startswith("store"):
         return "allowed:scope-wrapper-inplace", None
+    if fld in BINDING_CONTAINERS | ORDER_MIRRORS and op == "call .pop":
+        # `c.pop(i)` is `del c[i]` with the element handed back: allowed with an explicit position (R-C04-2 judges the position)
+        pc = next((c for c in ast.walk(m.node) if isinstance(c, ast.Call) and isinstance(c.func, ast.Attribute) and c.func.attr == "pop"), None)
+        if pc is not None and len(pc.args) == 1 and not pc.keywords:
+            return ("allowed:binding-container" if fld in BINDING_CONTAINERS else "allowed:order-mirror"), None
     if fld in BINDING_CONTAINERS:
         if op in STRUCTURAL_OPS_OK:
             return "allowed:binding-container", None
@@ -184,13 +189,19 @@ def run(prog: Program) -> Results:
     r2 = res.rule("R-C04-2", "removal deletes exactly the located object: `del C[i]` uses the index of the loop that iterates "
                   "the same container C and found the match in this iteration", floor=3)
     for m in sites:
-        if m.op != "subscript __delitem__" or not isinstance(m.node, ast.Delete) or m.fld not in (BINDING_CONTAINERS | ORDER_MIRRORS):
+        if m.fld not in (BINDING_CONTAINERS | ORDER_MIRRORS):
+            continue
+        if m.op == "subscript __delitem__" and isinstance(m.node, ast.Delete):
+            targets_ = [t for t in m.node.targets if isinstance(t, ast.Subscript)]
+        elif m.op == "call .pop":
+            # `c.pop(i)`: the same question as `del c[i]`
+            targets_ = [ast.copy_location(ast.Subscript(value=c.func.value, slice=c.args[0], ctx=ast.Del()), c) for c in ast.walk(m.node)
+                        if isinstance(c, ast.Call) and isinstance(c.func, ast.Attribute) and c.func.attr == "pop" and len(c.args) == 1]
+        else:
             continue
         f = prog.funcs[m.func]
         pm = parent_map(f.node)
-        for t in m.node.targets:
-            if not isinstance(t, ast.Subscript):
-                continue
+        for t in targets_:
             r2.instances += 1
             cont = norm(t.value)
             idx = t.slice
@@ -394,37 +405,51 @@ def search_then_insert(prog: Program, res: Results, rid: str) -> None:
     searched (and that later lookups will search), i.e. D is C"""
     r = res.rule(rid, "lookup-or-create inserts where it looked: when a binding is searched in a container and created because it "
                  "was not found, it is appended to that same container (the next lookup along the same path must find it)", floor=3)
+    from sa.cfg import CFG as _CFG, edges_establishing as _ee
     for f in prog.all_functions():
         if f.module.endswith("color.py"):
             continue
-        for n in walk_no_nested(f.node):
-            if not (isinstance(n, ast.If) and isinstance(n.test, ast.Compare) and len(n.test.ops) == 1 and isinstance(n.test.ops[0], ast.Is)
-                    and isinstance(n.test.left, ast.Name) and isinstance(n.test.comparators[0], ast.Constant) and n.test.comparators[0].value is None):
+        # locals that hold the result of a search, with the container that was searched
+        found: dict = {}
+        for d in walk_no_nested(f.node):
+            if isinstance(d, (ast.Assign, ast.NamedExpr)) and isinstance(d.value, ast.Call):
+                tg = d.targets[0] if isinstance(d, ast.Assign) else d.target
+                if not isinstance(tg, ast.Name):
+                    continue
+                v, cn = d.value, callee(d.value)
+                if cn in ("_find_named_binding", "_find_binding", "_find_attrpath_root") and v.args:
+                    found.setdefault(tg.id, set()).add(norm(v.args[0]))
+                elif cn == "next" and v.args and isinstance(v.args[0], ast.GeneratorExp):
+                    from sa.seqbuild import _rev as _rv
+                    found.setdefault(tg.id, set()).add(norm(_rv(v.args[0].generators[0].iter)[0]))
+                elif cn == "_find_binding_index" and isinstance(v.func, ast.Attribute):
+                    found.setdefault(tg.id, set()).add(norm(v.func.value))
+        if not found:
+            continue
+        cfg = _CFG(f.node)
+        for x, searched in sorted(found.items()):
+            # insertions that happen only where the search found nothing (`if x is None: …` or after `if x is not None: …; return`)
+            missing = _ee(cfg, lambda a, t, _x=x: (norm(a) == f"{_x} is None" and t is True) or (norm(a) == _x and t is False))
+            if not missing:
                 continue
-            x = n.test.left.id
-            apps = [c for st in n.body for c in ast.walk(st) if isinstance(c, ast.Call) and isinstance(c.func, ast.Attribute) and c.func.attr in ("append", "insert")]
+            apps = []
+            for nd in cfg.nodes:
+                if nd.ast is None or nd.kind not in ("stmt",):
+                    continue
+                for c in ast.walk(nd.ast):
+                    if isinstance(c, ast.Call) and isinstance(c.func, ast.Attribute) and c.func.attr in ("append", "insert") \
+                            and cfg.all_paths_pass(nd, cut_edges=missing):
+                        apps.append(c)
             if not apps:
                 continue
-            searched = set()
-            for d in ast.walk(f.node):
-                if isinstance(d, ast.Assign) and norm(d.targets[0]) == x and isinstance(d.value, ast.Call):
-                    v = d.value
-                    cn = callee(v)
-                    if cn in ("_find_named_binding", "_find_binding", "_find_attrpath_root") and v.args:
-                        searched.add(norm(v.args[0]))
-                    elif cn == "next" and v.args and isinstance(v.args[0], ast.GeneratorExp):
-                        searched.add(norm(v.args[0].generators[0].iter))
-                    elif cn == "_find_binding_index" and isinstance(v.func, ast.Attribute):
-                        searched.add(norm(v.func.value))
-            if not searched:
-                continue
+            searched = set(searched)
             searched |= {s_ + ".values" for s_ in searched} | {s_[:-7] for s_ in searched if s_.endswith(".values")}
             r.instances += 1
             targets = [norm(c.func.value) for c in apps if "attrpath_order" not in norm(c.func.value) and "order" not in norm(c.func.value).split(".")[-1]]
             bad = [t for t in targets if t not in searched]
             r.ob(not bad, {"site": f.key, "searched": sorted(searched)[:3], "inserted_into": targets})
             for t in bad:
-                res.add(rid, (f.key, "created object inserted into a different container", t), f.loc(n),
+                res.add(rid, (f.key, "created object inserted into a different container", t), f.loc(apps[0]),
                         f"{f.key}: `{x}` is looked up in {sorted(searched)[:2]} but, when missing, the new object is appended to `{t}`: "
                         f"the text may still render through an order list, but the next set/rm along the same path does not find it "
                         f"(duplicate line / KeyError)")
